@@ -134,6 +134,9 @@ def ambiguous_colonless(node, rm):
     reading of such a role is not documented)."""
     for r, t in node[1]:
         base = r.partition('~')[0]
+        if r.startswith('/') and r != '/':
+            return True      # '/~e.1': not producible by the parser (configure writes it for an
+            #                  aligned ':instance~e.1' role); its reading is not documented
         if base != '/' and not base.startswith(':'):
             if base.endswith('-of') and rm.defines(':' + base):
                 return True
